@@ -642,6 +642,14 @@ def gen_text(rng, n, kts=KT_ALL):
                "\U0001F600", "\U0001F600\U0001F600", "a\U0001F600b", "enr", "enr:", "enr:A", "AAAA", ""]:
         steps.append({"op": "from_str", "kts": kts, "text": {"chars": cps(s0)}, "tag": "multibyte_text"})
         steps.append({"op": "from_json", "kts": kts, "quote": True, "text": {"chars": cps(s0)}, "tag": "multibyte_json"})
+    for nb in range(295, 307):
+        body = {"raw": [0xf9, 1, nb - 3] + rand_bytes(rng, nb - 3)}
+        steps.append({"op": "from_str", "kts": kts, "text": {"b64": body}, "tag": "long_text_no_prefix_%d" % nb})
+        steps.append({"op": "from_str", "kts": kts, "text": {"b64": body, "prefix": cps("enr:")}, "tag": "long_text_prefix_%d" % nb})
+        steps.append({"op": "from_json", "kts": kts, "quote": True, "text": {"b64": body}, "tag": "long_json_%d" % nb})
+    for ln in list(range(396, 412)) + [600, 1000, 5000]:
+        s1 = "".join(rng.choice("ABCDEFGHIJKLMNOPQRSTUVWXYZabcdefghijklmnopqrstuvwxyz0123456789-_") for _ in range(ln))
+        steps.append({"op": "from_str", "kts": kts, "text": {"chars": cps(s1)}, "tag": "long_random_text"})
     for _ in range(30 * max(1, n // 4)):
         ln = rng.choice([0, 1, 2, 3, 4, 5, 8, 40, 200, 500])
         alphabet = rng.choice(["ABCDEFabcdef0123456789-_", "enr:AQ-_=", "".join(chr(c) for c in range(32, 127)), "é中A-"])
@@ -971,8 +979,17 @@ def gen_seq(rng, kts=("k256", "libsecp", "ed", "comb"), seqs=None, calls_per=Non
             for other in [x for x in signers_for(kt) if x != own]:
                 steps.append({"op": "decode", "h": "r", "kt": kt, "input": {"rec": {"seq": seq, "pairs": pairs, "sig": {"by": own}}}, "tag": "seq_init"})
                 steps.append({"op": "call", "h": "r", "m": "set_public_key", "args": {"pk_of": other}, "signer": own})
-            # set_seq to every boundary from here
-            for s2 in rng.sample(SEQ_BOUNDARY, 4):
+            # the same value written again with ANOTHER key of the scheme: a complete update that re-keys
+            others = [x for x in signers_for(kt) if scheme_of(x) == scheme_of(own) and x != own]
+            for m, af in calls[:6]:
+                args = af(rng)
+                if "pk_of" in args:
+                    continue
+                steps.append({"op": "decode", "h": "r", "kt": kt, "input": {"rec": {"seq": seq, "pairs": pairs, "sig": {"by": own}}}, "tag": "seq_init"})
+                steps.append({"op": "call", "h": "r", "m": m, "args": args, "signer": own})
+                steps.append({"op": "call", "h": "r", "m": m, "args": args, "signer": others[0]})
+            # set_seq to every boundary from here (0 always among them)
+            for s2 in [[]] + rng.sample(SEQ_BOUNDARY, 4):
                 steps.append({"op": "call", "h": "r", "m": "set_seq", "args": {"seq": s2}, "signer": own})
             out.append({"sid": sid(), "steps": steps})
         # builder -> encode -> decode with random 64-bit sequence numbers
@@ -1157,10 +1174,10 @@ def gen_eq(rng, n, kts=("k256", "libsecp", "ed", "comb")):
                  # same sequence number, the pairs of `a` plus one pair that sorts last / minus its last custom pair
                  {"op": "clone", "h": "p", "from": "a"},
                  {"op": "call", "h": "p", "m": "insert", "args": {"key": B("zzzz"), "val": {"ty": "bytes", "v": [1]}}, "signer": own},
-                 {"op": "call", "h": "p", "m": "set_seq", "args": {"seq": rec["seq"]}, "signer": own},
+                 {"op": "call", "h": "p", "m": "set_seq", "args": {"seq": rec["seq"]}, "signer": own, "obs": "full"},
                  {"op": "clone", "h": "p2", "from": "a"},
                  {"op": "call", "h": "p2", "m": "insert", "args": {"key": [], "val": {"ty": "bytes", "v": [2]}}, "signer": own},
-                 {"op": "call", "h": "p2", "m": "set_seq", "args": {"seq": rec["seq"]}, "signer": own}]
+                 {"op": "call", "h": "p2", "m": "set_seq", "args": {"seq": rec["seq"]}, "signer": own, "obs": "full"}]
         # a raw value that is a list followed by a key/value pair sorting right behind its carrier key: must be refused;
         # if it were stored, the record and its re-decoding would be "equal" with different pairs
         if not any(bytes(k) in (b"ip", b"idx", b"ie") for k, _ in rec["pairs"]):
@@ -1401,4 +1418,32 @@ def gen_size_exact(rng, kts=("k256", "libsecp", "ed", "comb"), targets=range(296
                 steps = []
         if steps:
             out.append({"sid": sid(), "steps": steps})
+    return out
+
+
+def gen_text_stale(rng, n):
+    """text forms after histories in which the text was NOT asked for at every step: observed fully only at the
+    first and the last step, with the sequence number brought back to an earlier value in between"""
+    sid = Sid("stale")
+    out = []
+    for i in range(n):
+        kt = ["k256", "libsecp", "ed", "comb"][i % 4]
+        sigs = signers_for(kt)
+        own = rng.choice(sigs)
+        other = rng.choice([x for x in sigs if scheme_of(x) == scheme_of(own) and x != own])
+        seq0 = rng.choice([[1], [7], [127], [255], [1, 0]])
+        steps = [{"op": "build", "h": "r", "kt": kt, "signer": own, "obs": "full", "calls": [{"m": "seq", "seq": seq0}, {"m": "udp4", "port": 30303}]}]
+        variant = i % 3
+        if variant == 0:
+            steps += [{"op": "call", "h": "r", "m": "set_tcp4", "args": {"port": rng.randrange(65536)}, "signer": own},
+                      {"op": "call", "h": "r", "m": "set_seq", "args": {"seq": seq0}, "signer": own, "obs": "full"}]
+        elif variant == 1:
+            steps += [{"op": "call", "h": "r", "m": "set_seq", "args": {"seq": seq0}, "signer": other, "obs": "full"}]
+        else:
+            steps += [{"op": "clone", "h": "c", "from": "r"},
+                      {"op": "call", "h": "c", "m": "insert", "args": {"key": B("k"), "val": {"ty": "bytes", "v": [1]}}, "signer": own},
+                      {"op": "call", "h": "c", "m": "remove_key", "args": {"key": B("udp")}, "signer": own},
+                      {"op": "call", "h": "c", "m": "set_seq", "args": {"seq": seq0}, "signer": own, "obs": "full"},
+                      {"op": "compare", "a": "r", "b": "c"}]
+        out.append({"sid": sid(), "steps": steps})
     return out
